@@ -54,7 +54,10 @@ def main():
         def run_demo(tag, n=2):
             codes = []
             for _ in range(n):
-                rc, out = sh("./demo_%s %s" % (tag, certdir or ""), cwd=base, timeout=180)
+                # TLS demos find the committed test certificate as certs/test_cert.pem, certs/test_key.pem in their cwd
+                if not os.path.exists(base + "/certs"):
+                    os.symlink("/verif/harness/certs", base + "/certs")
+                rc, out = sh("./demo_%s" % tag, cwd=base, timeout=180)
                 codes.append(rc)
             return codes
 
